@@ -377,8 +377,8 @@ fn main() {
     }
     let n = args.tier.pick(1200usize, 25_000usize);
     let (seed, tier) = (args.seed, args.tier);
-    let mut rs = run_cases(SETUP_NAMES.len(), args.threads, |i| with_setup!(SETUP_NAMES[i], directed,));
-    rs.extend(run_cases(n, args.threads, |i| with_setup!(SETUP_NAMES[i % SETUP_NAMES.len()], case, seed, i, tier)));
+    let mut rs = run_cases_isolated(SETUP_NAMES.len(), args.threads, |i| with_setup!(SETUP_NAMES[i], directed,));
+    rs.extend(run_cases_isolated(n, args.threads, |i| with_setup!(SETUP_NAMES[i % SETUP_NAMES.len()], case, seed, i, tier)));
     rep.add_all(rs);
     rep.finish(args.tier.pick(400, 8_000));
 }
